@@ -229,6 +229,9 @@ def start_preempted(fn, line):
         if event == 'line':
             count[0] += 1
             if count[0] == line:
+                import linecache
+                text = linecache.getline(frame.f_code.co_filename, frame.f_lineno).strip()
+                st['site'] = '%s:before:%s' % (frame.f_code.co_name, text.split('#')[0].strip()[:60].strip())
                 st['paused'].set()
                 if not st['resume'].wait(20):
                     raise TimeoutError('never resumed')
@@ -505,6 +508,9 @@ def impl_run(case, choose=None, next_op=None):
             else:
                 c.do_request(op[1])
         c.split_finish()
+        if c.split is not None:
+            # where the request was actually stopped (function and statement), for the signature
+            case['site'] = (c.split_state or {}).get('site', 'not-preempted')
     finally:
         CUR = None
     return c.events, c.errors, c.script, ops
@@ -672,7 +678,7 @@ def features(events):
 def sig_of(case, bad):
     mode = 'hs' if case['hasStates'] else 'raw'
     clause = bad[0][1]
-    return 'C14:%s:%s%s' % (mode, clause, ':preempted-request' if case.get('split') else '')
+    return 'C14:%s:%s%s' % (mode, clause, (':preempted:' + case.get('site', '?')) if case.get('split') else '')
 
 
 def check_cases(ctx, res, batch, label, compare=True):
